@@ -531,6 +531,62 @@ class Ctx:
                         witness=None if ok else {"path": body.describe_path(bad), "unit": body.defq},
                         site_key=f"{body.defq}")
 
+    # ---- effect reachability -------------------------------------------------------------
+    def reach_calls(self, roots, crates, max_depth=12, stop=(), no_cha=()):
+        """EFFECT: bounded call-graph reachability. roots: unit qnames (all impl variants).
+        Direct callees are followed by qualified name; a trait-method call `Trait::m` is followed to
+        its resolved impl when known, otherwise to every `<* as Trait>::m` unit of `crates`
+        (class-hierarchy approximation). Returns (visited unit qnames, list of (Call, chain))."""
+        index = {}
+        by_trait_method = {}
+        for cn in crates:
+            for q, us in self.F.crate(cn)["units"].items():
+                index.setdefault(q, []).extend(us)
+                if q.startswith("<") and " as " in q and ">::" in q:
+                    tm = q.split(" as ", 1)[1].replace(">::", "::", 1)
+                    by_trait_method.setdefault(tm, []).extend(us)
+        seen = {}
+        calls = []
+        frontier = []
+        for r in roots:
+            for u in index.get(r, []):
+                frontier.append((u, (r,)))
+        if not frontier:
+            raise AnchorMissing(f"effect roots {roots}")
+        depth = 0
+        while frontier and depth <= max_depth:
+            nxt = []
+            for u, chain in frontier:
+                key = (u.q, u.root.impl_self)
+                if key in seen:
+                    continue
+                seen[key] = chain
+                if glob_any(u.q, stop):
+                    continue
+                for b in u.bodies:
+                    for c in b.calls:
+                        if c.bb not in b.live:
+                            continue
+                        calls.append((c, chain))
+                        targets = []
+                        if c.res and c.res in index:
+                            targets = index[c.res]
+                        elif c.path in index:
+                            targets = index[c.path]
+                        elif c.trait and c.path in by_trait_method and not glob_any(c.path, no_cha):
+                            targets = by_trait_method[c.path]
+                        for t in targets:
+                            nxt.append((t, chain + (t.q,)))
+                    for ref in fn_refs(b):
+                        for cand in (ref.get("res"), ref["path"]):
+                            if cand and cand in index:
+                                for t in index[cand]:
+                                    nxt.append((t, chain + (t.q,)))
+                                break
+            frontier = nxt
+            depth += 1
+        return seen, calls
+
     # ---- totality ------------------------------------------------------------------------
     PANIC_CALLS = ("core::option::Option::unwrap", "core::option::Option::expect", "core::result::Result::unwrap",
                    "core::result::Result::expect", "core::result::Result::unwrap_err", "core::result::Result::expect_err",
